@@ -12,6 +12,7 @@
 -/
 import Babylon.Anyflow.DepLemmas
 import Babylon.Anyflow.GraphLemmas
+import Babylon.Anyflow.GraphTerm
 
 namespace Babylon.Properties.C05
 open Babylon.Core Babylon.Anyflow Babylon.Gen.Anyflow
@@ -207,7 +208,7 @@ success" half of the property.  Full statement: additionally every run terminate
 finished, and with code 0 whenever the sequential evaluation has everything it needs — FALSE for the
 code as it is when a dependency has `cond = target` (`dep_same_data_counterexample`: the run
 finishes with -1) or when an unknown emitter races with the run (`closure_flush_twice_counterexample`).
-What is proved about termination is `graph_terminates_partial`.
+Termination itself is `graph_terminates` (strictly decreasing measure + no stuck state).
 (every well-formed DAG, every input, every target set, every schedule).
 If the run finishes successfully (code 0) every target is ready and holds the value the sequential
 evaluation `evalSeq` of the same graph gives; more generally, until the closure finishes every
@@ -232,6 +233,49 @@ theorem graph_terminates_partial (p : Params) (hwf : WF p) (s : State) (h : Reac
     (s.flushed = 0 → ∃ e, (e = .bind ∨ e = .fireD ∨ e = .fireV ∨ e = .vsub) ∧ (stepEvent p s e).isSome = true) ∧
     (s.flushed = 1 → s.fin = none → (stepEvent p s (.finish (-1))).isSome = true) :=
   Graph.closure_progress p hwf s h hr hl hp
+
+open Babylon.Anyflow.Graph in
+/-- **graph_terminates** (every well-formed DAG — `WF` excludes `cond = target` as in the other theorems —
+every input, target set and schedule).  One run = steps of the model other than `reset` (`TStep`), with the
+executor hypothesis explicit on the one event the model leaves open: a vertex closure is created only for a
+vertex that has been made runnable, one per vertex (what `GraphVertex::invoke` does; the ghost `k` counts them).
+* **measure**: `M` (2·unsealed data + pending data-count decrements + unbound targets + phase flags +
+  inactive vertices + dependencies not yet activated + dependency notifications not yet counted +
+  2·vertex closures still to be created + open vertex closures + 2·processors still to start + running
+  processors) strictly decreases on EVERY step from a reachable state — no fairness assumption is needed for
+  finiteness;
+* **bound**: an execution of `n` steps satisfies `n + M last ≤ M first`; in particular every execution of a
+  run has at most `M (init, 0)` steps and every maximal execution is finite;
+* **no stuck state**: a reachable state (no emitter unknown to the closure, `lateEnv = false`, as in
+  `closure_finish_flush_partial`) in which no event other than `reset` is enabled is the end of the run:
+  fired, flushed exactly once, no vertex closure open, no processor running, closure finished; finished
+  with 0 means every target is ready with its `evalSeq` value, otherwise the run failed with that code.
+Hence under any scheduler that keeps taking enabled steps (fairness in its weakest form) every run reaches,
+after at most `M (init, 0)` steps, a finished and flushed closure. -/
+theorem graph_terminates (p : Params) (hwf : WF p) :
+    (∀ s k s' k', Reachable (· = State.init) (Step p) s → TStep p (s, k) (s', k') → M p (s', k') < M p (s, k)) ∧
+    (∀ n x y, Reachable (· = State.init) (Step p) x.1 → TChain p n x y → n + M p y ≤ M p x) ∧
+    (∀ s, Reachable (· = State.init) (Step p) s → s.lateEnv = false →
+      (∀ e, e ≠ Ev.reset → stepEvent p s e = none) →
+      s.running = true ∧ s.firedV = true ∧ s.flushed = 1 ∧ s.wvn = 0 ∧ s.opened = 0 ∧ s.procs = 0 ∧ s.fin ≠ none ∧
+      (s.fin = some 0 → ∀ t ∈ p.targets, s.sealed t = true ∧ s.val t = evalSeq p t)) :=
+  ⟨fun _ _ _ _ hr h => step_decreases hwf hr h, fun _ _ _ hr hc => tchain_bound hwf hr hc,
+   fun _ hr hl hs => graph_stuck hwf hr hl hs⟩
+
+open Babylon.Anyflow.Graph in
+/-- not vacuous: on the one-vertex graph `cexParams` the measure of the initial state is 16, `okSchedule` is an
+execution of 15 `TStep`s (the executor hypothesis on `vadd` holds) that brings the measure down to 0 and ends
+with the closure finished with 0 and flushed once. -/
+example : M cexParams (State.init, 0) = 16 ∧
+    (runT cexParams (State.init, 0) okSchedule).map (fun y => (M cexParams y, y.2, y.1.fin, y.1.flushed)) = some (0, 1, some 0, 1) ∧
+    ∃ y, TChain cexParams 15 (State.init, 0) y ∧ M cexParams y = 0 := by
+  refine ⟨by decide, by decide, ?_⟩
+  cases h : runT cexParams (State.init, 0) okSchedule with
+  | none => exact absurd h (by decide)
+  | some y =>
+    refine ⟨y, runT_chain h, ?_⟩
+    have : (runT cexParams (State.init, 0) okSchedule).map (fun y => M cexParams y) = some 0 := by decide
+    rw [h] at this; simpa using this
 
 open Babylon.Anyflow.Graph in
 /-- not vacuous: the one-vertex graph `cexParams` is well-formed, and `okSchedule` (input preset before
